@@ -70,6 +70,61 @@ def finding_key(runinfo, ev, reason):
     return "%s|%s|%s:%s" % (runinfo["scenario"], how, ev, reason)
 
 
+def fault_http(prop="C20"):
+    """C20, fault clause: every victim operation driven through the HTTP handler while its k-th storage / Lightning call fails
+    (every k); TLC judges how the failure is reported (Http!FaultHttpTags): {detail, code} body, no text of the failing
+    call's error.  Returns (coverage, violations)."""
+    build_harness()
+    d = rundir("%s_faulthttp_%s" % (prop, tier()))
+    sd = spec_copy(d)
+    scns = [dict(s, http=True, nocrash=True) for s in scenarios()]
+    if tier() == "quick":
+        scns = [s for s in scns if s["name"] in ("swap", "mint", "melt-success", "melt-pending", "melt-internal", "pollmelt-failed", "melt-error-succeeded")]
+    sin = os.path.join(d, "fault_scenarios.json")
+    with open(sin, "w") as f:
+        json.dump(scns, f)
+    out = os.path.join(d, "fault")
+    scratch = "/dev/shm/verif-fault-%d" % os.getpid() if os.path.isdir("/dev/shm") else os.path.join(d, "scratch")
+    rc, txt = run([os.path.join(BIN, "vharness"), "crash", "-in", sin, "-out", out, "-scratch", scratch, "-seed", str(seed()),
+                   "-workers", "14"], env=goenv(), timeout=3000)
+    shutil.rmtree(scratch, ignore_errors=True)
+    if rc != 0:
+        raise Infra("fault driver failed (rc=%d):\n%s" % (rc, txt[-3000:]))
+    trace = os.path.join(out, "crash.ndjson")
+    runs = {r["tr"]: r for r in json.load(open(os.path.join(out, "runs.json")))}
+    res = monitor(sd, trace, name="faultmon")
+    evs = load_events(trace)
+    if res["lines"] != len(evs):
+        raise Infra("monitor consumed %d of %d events" % (res["lines"], len(evs)))
+    found = {}
+    for p, tr, i, reason in res["tags"]:
+        if p != prop:
+            continue          # consequences of the fault for the state belong to C07
+        e = evs[(tr, i)]
+        key = "%s-under-fault:%s" % (e["ev"], reason)
+        found.setdefault(key, []).append((tr, i))
+    unknown, known = split_known(prop, sorted(found))
+    for k in known:
+        print("KNOWN-FINDING: property=%s %s (%s)" % (prop, k["key"], k.get("what", "")))
+    viol = []
+    for key in unknown:
+        tr, i = found[key][0]
+        e = evs[(tr, i)]
+        path = save_replay(prop, re.sub(r"[^A-Za-z0-9]+", "_", key)[:90],
+                           {"property": prop, "kind": "fault-http", "key": key, "seed": seed(), "run": runs[tr], "occurrences": len(found[key]),
+                            "scenario": [s for s in scns if s["name"] == runs[tr]["scenario"]][0],
+                            "event": {"ev": e["ev"], "a": e["a"], "r": e["r"]}})
+        print("VIOLATION property=%s replay=%s" % (prop, path))
+        print("  finding: %s (%d occurrences)" % (key, len(found[key])))
+        viol.append(key)
+    faulted = [e for e in evs.values() if e["a"].get("fault")]
+    refused = [e for e in faulted if e["r"].get("http", {}).get("status") == 400]
+    return {"fault_executions": sum(1 for r in runs.values() if r["mode"] == "error"), "fault_scenarios": [s["name"] for s in scns],
+            "operations_under_fault": len(faulted), "refusals_under_fault_inspected": len(refused),
+            "sample_refusal_under_fault": ({"ev": refused[0]["ev"], "http": refused[0]["r"]["http"]} if refused else None),
+            "events": len(evs), "tlc_states": res["tlc_states"], "known_findings_seen": [k["key"] for k in known]}, len(viol)
+
+
 def check(prop="C07"):
     t0 = time.time()
     build_harness()
